@@ -86,7 +86,7 @@ def logs(draw, max_runs=5, allow_empty=True):
             cols0 = cols
         nrows = draw(st.integers(1, 12))
         every = draw(st.sampled_from([1, 10, 100, 250]))
-        rel = draw(st.sampled_from(['continue', 'continue', 'overlap', 'disjoint', 'same'])) if r else 'start'
+        rel = draw(st.sampled_from(['continue', 'continue', 'continue', 'overlap', 'overlap', 'disjoint', 'disjoint', 'same', 'same', 'backward'])) if r else 'start'
         if r:
             prev = runs[-1]['rows']
             p0, p1 = int(prev[0][0]), int(prev[-1][0])
@@ -97,6 +97,8 @@ def logs(draw, max_runs=5, allow_empty=True):
                 step = int(prev[max(0, len(prev) - 1 - back)][0]) if len(prev) > 1 else p1
                 every = runs[-1]['every']
                 nrows = max(nrows, back + 1 + draw(st.integers(0, 3)))   # window end does not precede the previous window end
+            elif rel == 'backward':            # reset_timestep to an earlier step: window may end before the previous one ends
+                step = max(0, p0 - draw(st.sampled_from([0, 1, 500]))) if draw(st.booleans()) else int(prev[len(prev) // 2][0])
             elif rel == 'disjoint':
                 step = p1 + draw(st.sampled_from([1, 7, 1000]))
             else:                                # 'same': "run 0" repeated: the very same step printed again
@@ -243,7 +245,31 @@ def _check_flat(log, exp_runs, style, first, last, labels):
     if not sel:
         return
     if style != 'all' and not _unambiguous(sel):
-        labels.add('flat_ambiguous_skipped')
+        # both readings agree on this much: every printed timestep at most once, ascending or not, nothing invented,
+        # and each row carries the values some selected run printed for that step
+        labels.add('flat_ambiguous_weak')
+        kw = {}
+        if first is not None:
+            kw['firstindex'] = first
+        if last is not None:
+            kw['lastindex'] = last
+        df = log.flatten(style, **kw).thermo
+        steps = [int(x) for x in df['Step'].tolist()] if len(df) else []
+        what = 'flatten(%r, %r, %r)' % (style, first, last)
+        require(len(set(steps)) == len(steps), lambda: '%s: a timestep appears more than once: %r (runs have steps %r)' % (
+            what, steps, [[int(r[0]) for r in run['rows']] for run in sel]))
+        printed = {}
+        for run in sel:
+            for r in run['rows']:
+                printed.setdefault(int(r[0]), []).append(dict(zip(run['cols'], r)))
+        require(set(steps) <= set(printed), lambda: '%s: steps %r were never printed' % (what, sorted(set(steps) - set(printed))))
+        for i, s_ in enumerate(steps):
+            ok = False
+            for rec in printed[s_]:
+                if all(_same(df[c].iloc[i], t) for c, t in rec.items() if c in df.columns):
+                    ok = True
+                    break
+            require(ok, lambda: '%s: the row for step %d matches no run that printed it' % (what, s_))
         return
     kw = {}
     if first is not None:
@@ -294,7 +320,7 @@ def _log_labels(lc, labels):
     if len(runs) >= 2:
         if any(runs[i]['cols'] != runs[i + 1]['cols'] for i in range(len(runs) - 1)):
             labels.update({'colsets_differ', 'nt'})
-        if any(r['rel'] in ('continue', 'overlap', 'same') for r in runs[1:]):
+        if any(r['rel'] in ('continue', 'overlap', 'same', 'backward') for r in runs[1:]):
             labels.update({'overlap', 'nt'})
     if runs:
         labels.add('timing_' + runs[0]['timing']); labels.add('mem_' + runs[0]['mem'])
@@ -390,10 +416,8 @@ def oracle_history(case):
                 model['version'], model['date'] = exp['version'], exp['date']
             _check_log_object(log, model, 'after op %d (%s, append=%r)' % (k, op['input'], append))
             _log_labels(op['log'], labels)
-        if model['runs']:
-            for style in ('first', 'last', 'all'):
-                ok = True
-                if ok:
+            if model['runs']:
+                for style in ('first', 'last', 'all'):
                     _check_flat(log, model['runs'], style, None, None, labels)
     labels.add('ops%d' % len(case['ops']))
     if len(case['ops']) >= 2:
